@@ -245,6 +245,18 @@ func (cs *ColumnSeries) GetEpoch() []int64 {
 
 func (cs *ColumnSeries) ToRowSeries(itemKey TimeBucketKey, alignData bool) (rs *RowSeries, err error) {
 	dsv := cs.GetDataShapes()
+	// every record starts with the epoch: list the Epoch shape first, so that the shapes
+	// of the returned RowSeries describe the records
+	for i, shape := range dsv {
+		if shape.Name == "Epoch" && i != 0 {
+			reordered := make([]DataShape, 0, len(dsv))
+			reordered = append(reordered, shape)
+			reordered = append(reordered, dsv[:i]...)
+			reordered = append(reordered, dsv[i+1:]...)
+			dsv = reordered
+			break
+		}
+	}
 	data, recordLen, err := SerializeColumnsToRows(cs, dsv, alignData)
 	if err != nil {
 		return nil,
